@@ -25,6 +25,12 @@ def _task(job):
     rec.ctx = f"{prog['name']} [{' '.join(flags)}]"
     out = {"prog": prog["name"], "flags": flags, "outcome": None, "evals": None, "fails": None, "error": None}
     from ..csem import tv
+    import signal
+
+    def _alarm(signum, frame):
+        raise TimeoutError("compilation exceeded the per-program time limit")
+    signal.signal(signal.SIGALRM, _alarm)
+    signal.alarm(_CTX.get("time_limit", 60))
     t = time.time()
     try:
         try:
@@ -43,17 +49,23 @@ def _task(job):
             out["outcome"] = "internal:" + str(e)[:120]
         except RuntimeError as e:
             out["outcome"] = "badflags:" + str(e)[:80]
+        except TimeoutError as e:
+            out["outcome"] = "timeout:" + str(e)
+    except TimeoutError as e:
+        out["outcome"] = "timeout:" + str(e)
     except Exception:
         out["error"] = traceback.format_exc()[-1500:]
+    finally:
+        signal.alarm(0)
     out["evals"] = dict(rec.evals)
     out["fails"] = list(rec.fails)
     out["wall"] = round(time.time() - t, 3)
     return out
 
 
-def run(programs, flagsets, installers, post=None):
+def run(programs, flagsets, installers, post=None, time_limit=60):
     _CTX.clear()
-    _CTX.update(programs=programs, installers=installers, post=post, installed=False)
+    _CTX.update(programs=programs, installers=installers, post=post, installed=False, time_limit=time_limit)
     jobs = [(pi, fl) for pi in range(len(programs)) for fl in flagsets]
     jobs.sort(key=lambda j: -len(programs[j[0]]["src"]))
     ctx = mp.get_context("fork")
